@@ -118,7 +118,26 @@ def run(ctx):
     # ---- recorder decision
     pol = SamplerPolicy(repo, excm)
     dom = small.analyse(repo, excm, smp, policy=pol, count=lambda l: False, domain=DrawDomain)
-    force_param = smp.params[3] if len(smp.params) > 3 else None
+    # parameters of the decision by what the call site hands them (not by position): the force flag, the recording
+    from ..loader import expand_locals as _xl0
+    site = [n for n in ast.walk(roles.start.node) if isinstance(n, ast.Call) and _self_attr(n.func) == smp.name]
+    if len(site) != 1:
+        raise AnalysisError('anchor-lost role=call site of the sampling decision in %s' % roles.start.qualname)
+    force_param = rec_param = None
+    bound = list(zip(smp.params[1:], site[0].args)) + [(k.arg, k.value) for k in site[0].keywords if k.arg]
+    for prm, a in bound:
+        a = _xl0(roles.start.node, a, depth=2)
+        f = _self_attr(a)
+        if f is None:
+            continue
+        pm = roles.cls.lookup(f)
+        if pm is not None and pm.is_property:
+            rets = [n.value for n in walk_own(pm.node) if isinstance(n, ast.Return) and n.value is not None]
+            f = _self_attr(rets[0]) if len(rets) == 1 else f
+        if f == roles.force_flag:
+            force_param = prm
+        elif f == roles.active:
+            rec_param = prm
     if force_param is None:
         raise AnalysisError('anchor-lost role=force parameter of the sampling decision')
 
@@ -190,8 +209,7 @@ def run(ctx):
             res.add(Finding('C17', 'C17.b', 'R-TYPESTATE', func.file, func.qualname, func.node.lineno, 'draw source', why))
 
     # ---- C17.c taint
-    rec_param = smp.params[1]
-    tainted = taint_closure(smp, {rec_param})
+    tainted = taint_closure(smp, {rec_param} if rec_param else set())
     sinks = set()
     for n in walk_own(smp.node):
         if isinstance(n, ast.If):
@@ -200,7 +218,7 @@ def run(ctx):
             sinks |= {x.id for x in ast.walk(n.value) if isinstance(x, ast.Name)}
     # values the returned names are computed from
     back = backward_closure(smp, sinks)
-    ok = not (back & {rec_param})
+    ok = not (back & {rec_param}) if rec_param else True
     cc.instance('recorder decision: parameter `%s` (the recording) flows only into logging' % rec_param, smp.qualname, ok,
                 detail='decision depends on: %s' % sorted(back))
     cc.evaluations += len(back)
